@@ -298,10 +298,10 @@ impl<VM: VMBinding> AllocatorContext<VM> {
             std::mem::ManuallyDrop::into_inner(Options::verif_zeroed_no_stress());
         let ctx = Self {
             alloc_options: AllocationOptionsHolder::new(AllocationOptions::default()),
-            state: Arc::new(unsafe { std::mem::zeroed() }),
+            state: Arc::new(unsafe { std::mem::MaybeUninit::zeroed().assume_init() }),
             thrown_oom: AtomicBool::new(false),
             options: Arc::new(options),
-            gc_trigger: Arc::new(unsafe { std::mem::zeroed() }),
+            gc_trigger: Arc::new(unsafe { std::mem::MaybeUninit::zeroed().assume_init() }),
             #[cfg(feature = "analysis")]
             analysis_manager: unimplemented!(),
         };
